@@ -89,7 +89,7 @@ pub fn profile(name: &str) -> Profile {
         "C02" => Profile { name: "C02", w_cause: 12, max_sources: 8, kinds: [3, 3, 2, 6, 0, 1, 0, 0, 0], err_returns: true, adapters: 2, ..base },
         "C03" => Profile { name: "C03", kinds: [10, 0, 1, 2, 0, 0, 0, 0, 0], w_cause: 12, err_returns: true, ..base },
         "C04" => Profile { name: "C04", kinds: [1, 10, 1, 1, 0, 0, 0, 0, 0], w_cause: 14, err_returns: true, ..base },
-        "C05" => Profile { name: "C05", kinds: [2, 1, 10, 1, 0, 0, 0, 0, 0], w_advance: 6, err_returns: true, ..base },
+        "C05" => Profile { name: "C05", kinds: [2, 1, 10, 1, 0, 0, 0, 2, 0], w_advance: 6, err_returns: true, ..base },
         "C06" => Profile { name: "C06", w_token: 9, w_insert: 7, reuse_bias: 3, ..base },
         "C07" => Profile { name: "C07", w_token: 10, err_returns: true, kinds: [3, 3, 3, 3, 3, 1, 1, 0, 1], ..base },
         "C08" => Profile { name: "C08", kinds: [3, 3, 3, 3, 1, 3, 1, 0, 0], adapters: 3, script_len: (1, 5), script_ops: (1, 6), w_idle: 4, ..base },
@@ -310,6 +310,16 @@ impl G {
                 return v;
             }
             return crate::gen2::adapter_op(self).into_iter().collect();
+        }
+        if self.p.signals > 0 && !self.sigsrc.is_empty() && self.rng.chance(1, 4) {
+            // a callback acts on a Signals source (whose own event may sit later in this batch)
+            let s = *self.rng.pick(&self.sigsrc.clone());
+            return vec![match self.rng.below(6) {
+                0 | 1 | 2 => Op::Disable(s),
+                3 => Op::Enable(s),
+                4 => Op::Update(s),
+                _ => Op::Remove(s),
+            }];
         }
         let target_self = me.is_some() && self.rng.chance(2, 5);
         let tgt = if target_self { me } else { self.any_src().map(|s| s.0) };
@@ -568,7 +578,11 @@ impl G {
                     1 => vec![Op::Disable(id)],
                     2 => vec![Op::Enable(id)],
                     3 => vec![Op::Update(id)],
-                    _ => vec![if self.rng.chance(2, 3) { Op::TakeSource(id) } else { Op::DropDispatcher(id) }],
+                    _ => vec![match self.rng.below(6) {
+                        0 | 1 | 2 => Op::TakeSource(id),
+                        3 => Op::DropDispatcher(id),
+                        _ => Op::ReinsertKept(id),
+                    }],
                 }
             }
             2 => self.cause_op().into_iter().collect(),
@@ -634,6 +648,20 @@ pub fn generate(profile_name: &str, seed: u64) -> Program {
     }
     while (steps.len() as u64) < n {
         steps.extend(g.top_op());
+    }
+    // now and then the loop is dropped in mid-history and a second one takes over: what the
+    // program kept (dispatchers, handles) outlives the first loop and is used with the second
+    if matches!(p.name, "C16" | "C06" | "core") && g.rng.chance(1, 12) && steps.len() > 3 {
+        let at = g.rng.range(2, steps.len() as u64 - 1) as usize;
+        steps.insert(at, Op::NewLoop);
+        steps.insert(at, Op::DropLoop);
+        let kept: Vec<Id> = g.srcs.iter().filter(|s| s.2).map(|s| s.0).collect();
+        for k in kept {
+            if g.rng.chance(2, 3) {
+                let pos = g.rng.range(at as u64 + 2, steps.len() as u64) as usize;
+                steps.insert(pos, Op::ReinsertKept(k));
+            }
+        }
     }
     // end with a couple of dispatches so that outstanding obligations are observed
     steps.push(Op::Dispatch(Timeout::Zero));
